@@ -4,7 +4,7 @@ records the outcome in seeded/<name>/meta.json and writes seeded/RESULTS.md.
 usage: tools/seedrun.py [name ...]      (applies each patch to /repo, runs, reverts; nothing is committed to /repo)"""
 import json, os, subprocess, sys, glob, re, time
 V = os.path.dirname(os.path.dirname(os.path.abspath(__file__)))
-REPO = "/repo"
+REPO = os.environ.get("VERIF_REPO", "/repo")   # a lane: its own copy of /verif and its own worktree of /repo
 
 
 def sh(cmd, **kw):
